@@ -350,7 +350,9 @@ Renames == {[d |-> d, name |-> DeclName(d), toks |-> RenameSet(d)] : d \in DeclI
 RenameComplete == Done => \A d \in DeclIds : \A i \in 1..Len(out) :
                      (out[i].tg = d /\ out[i].t = DeclName(d) /\ out[i].r # "impalias" /\ out[i].r # "modref") => i \in RenameSet(d)
 
-Program == [imp |-> imp, items |-> items, out |-> out, ren |-> Renames, mods |-> VisibleModules]
+\* fields offered after `value.` for a value of m1's own type: the fields common to all its variants, in label order
+CommonFields == IF HasType THEN <<"a", "b">> ELSE <<>>
+Program == [imp |-> imp, items |-> items, out |-> out, ren |-> Renames, mods |-> VisibleModules, fields |-> CommonFields]
 
 \* simulation mode: print the finished program and start over
 Finish == /\ Sim /\ Done
